@@ -768,8 +768,39 @@ class _Inliner:
                         i += 1
         # expression-level: helpers that are a single `return E`
         class T(ast.NodeTransformer):
-            def visit_Call(s, n: ast.Call):
+            def _ref(s, n):
+                "a bare reference to an expression-bodied helper (passed as a callable) becomes the equivalent lambda"
+                d = _dotted(n)
+                c = self.helpers.get(d) if d else None
+                if c is None or not isinstance(getattr(n, "ctx", None), ast.Load):
+                    return n
+                callee, skip = c
+                b = _body_wo_doc(callee)
+                a = callee.args
+                if not (len(b) == 1 and isinstance(b[0], ast.Return) and b[0].value is not None) or a.vararg or a.kwarg or a.kwonlyargs or a.defaults:
+                    return n
+                params = [x.arg for x in [*a.posonlyargs, *a.args]]
+                if skip:
+                    params = params[1:]
+                nonlocal changed
+                changed = True
+                self.log.append(f"helper reference {callee.name} -> lambda in {caller.name}")
+                lam = ast.Lambda(args=ast.arguments(posonlyargs=[], args=[ast.arg(arg=p_) for p_ in params], kwonlyargs=[], kw_defaults=[], defaults=[]),
+                                 body=copy.deepcopy(b[0].value))
+                return ast.copy_location(lam, n)
+
+            def visit_Name(s, n: ast.Name):
+                return s._ref(n)
+
+            def visit_Attribute(s, n: ast.Attribute):
                 s.generic_visit(n)
+                return s._ref(n)
+
+            def visit_Call(s, n: ast.Call):
+                if self._callee(n) is None:
+                    n.func = s.visit(n.func)
+                n.args = [s.visit(a_) for a_ in n.args]
+                n.keywords = [s.visit(k_) for k_ in n.keywords]
                 c = self._callee(n)
                 if c is None:
                     return n
